@@ -111,6 +111,7 @@ structure PendOk (d : RState) : Prop where
     | .del i _ => (∃ n, p.tag = .d n ∧ n ≤ d.nasync) ∧ isLive d.st i = true
     | .cls i => (∃ n, p.tag = .c n ∧ n ≤ d.nasync) ∧ isLive d.st i = true
   minted : ∀ p ∈ d.pend, ∀ i, sidOf p = some i → i < d.st.next
+  sids : ∀ p ∈ d.pend, (sidOf p).isSome = true    -- (stateful endpoint: every request belongs to a session)
 
 /-! ### the simulation relation -/
 
